@@ -739,14 +739,14 @@ pub fn run_case(c: &DirCase, acc: &mut Acc, check_c06: bool, check_c17: bool, ve
             }
         }
         // independent view
-        let (root_l, sub_l, sub_first, deeper): (fsck::DirListing, Option<fsck::DirListing>, u32, Vec<(bool, String, u32, fsck::DirListing)>) = disk.with_img(|img| {
+        let (root_l, sub_l, sub_first, deeper): (fsck::DirListing, Option<fsck::DirListing>, u32, Vec<(bool, String, u32, fsck::DirListing, Option<fsck::DirListing>)>) = disk.with_img(|img| {
             let fv = FatView::new(img, &lay);
             let rl = fsck::list_dir(img, &fv, DirLoc::Root);
             let sub = rl.slots.iter().find(|s| s.kind == SlotKind::Live && &s.raw[0..11] == b"TESTDIR    " && s.is_dir());
             let first = sub.map(|s| s.first(lay.fat32)).unwrap_or(0);
             let sl = sub.map(|s| fsck::list_dir(img, &fv, DirLoc::Cluster(s.first(lay.fat32))));
             // real sub-directories of both (for the '..' checks)
-            let mut deeper: Vec<(bool, String, u32, fsck::DirListing)> = Vec::new();
+            let mut deeper: Vec<(bool, String, u32, fsck::DirListing, Option<fsck::DirListing>)> = Vec::new();
             for (in_sub, s) in rl.slots.iter().map(|s| (false, s)).chain(sl.iter().flat_map(|l| l.slots.iter()).map(|s| (true, s))) {
                 if s.kind == SlotKind::Live && s.is_dir() && !s.is_dot() && !s.is_dotdot() && lay.in_range(s.first(lay.fat32)) {
                     let nm = names::display_name(&s.name());
@@ -763,7 +763,20 @@ pub fn run_case(c: &DirCase, acc: &mut Acc, check_c06: bool, check_c17: bool, ve
                         continue;
                     }
                     let l = fsck::list_dir(img, &fv, DirLoc::Cluster(s.first(lay.fat32)));
-                    deeper.push((in_sub, nm, s.first(lay.fat32), l));
+                    // where the directory's own '..' entry leads, by the bytes on the medium (for a
+                    // directory made by the formatter or the crate that is the holder of the entry;
+                    // an entry with a wild start cluster can lead anywhere)
+                    let up = l.slots.iter().find(|x| matches!(x.kind, SlotKind::Live | SlotKind::Label) && x.is_dotdot()).filter(|x| x.is_dir()).and_then(|dd| {
+                        let t = dd.first(lay.fat32);
+                        if t == 0 {
+                            Some(fsck::list_dir(img, &fv, DirLoc::Root))
+                        } else if lay.in_range(t) {
+                            Some(fsck::list_dir(img, &fv, DirLoc::Cluster(t)))
+                        } else {
+                            None
+                        }
+                    });
+                    deeper.push((in_sub, nm, s.first(lay.fat32), l, up));
                 }
             }
             (rl, sl, first, deeper)
@@ -836,7 +849,7 @@ pub fn run_case(c: &DirCase, acc: &mut Acc, check_c06: bool, check_c17: bool, ve
         // every other sub-directory: the directory an entry designates lists as the reader says,
         // and its '..' leads back to the directory holding the entry
         if check_c06 {
-            for (in_sub, nm, _first, want) in deeper.iter().take(6) {
+            for (in_sub, nm, _first, want, up_l) in deeper.iter().take(6) {
                 let parent = if *in_sub {
                     match api.open_dir(root, "TESTDIR", Surf::Raw) {
                         Ok(h) => h,
@@ -850,10 +863,18 @@ pub fn run_case(c: &DirCase, acc: &mut Acc, check_c06: bool, check_c17: bool, ve
                 let res = (|| -> Result<(), Failure> {
                     let h = api.open_dir(parent, nm, Surf::Raw).map_err(|e| fail("C06", "open-dir-refused", format!("{}: open_dir = {:?}", what, e)))?;
                     let r = compare_dir(&*api, h, want, lay.fat32, None, c.lfn_cap as usize, &what, acc, true, false);
-                    let r2 = if r.is_ok() && want.slots.iter().any(|s| s.kind == SlotKind::Live && s.is_dotdot()) {
+                    // '..' leads to the directory its entry designates: the holder of the entry for
+                    // every directory the formatter or the crate made (then `up_l` is the reader's
+                    // listing of that holder - asserted below), anything for a damaged entry
+                    let r2 = if let (true, Some(up_l)) = (r.is_ok(), up_l.as_ref()) {
+                        if up_l.blocks == parent_l.blocks {
+                            acc.class("dotdot:leads-to-holder");
+                        } else {
+                            acc.class("dotdot:leads-elsewhere-on-the-medium");
+                        }
                         match api.open_dir(h, "..", Surf::Raw) {
                             Ok(up) => {
-                                let r = compare_dir(&*api, up, parent_l, lay.fat32, None, c.lfn_cap as usize, &format!("directory reached through \"..\" from {}", what), acc, true, false);
+                                let r = compare_dir(&*api, up, up_l, lay.fat32, None, c.lfn_cap as usize, &format!("directory reached through \"..\" from {}", what), acc, true, false);
                                 let _ = api.close_dir(up, Surf::Raw);
                                 r
                             }
